@@ -113,9 +113,21 @@ def run_case(case):
     def tail1(a):
         return enc_rows(a[-2:], base) if len(a) else []
 
+    # TLC recomputes a window of T rows per read: large timeframes are read at a stride (always at the end)
+    nsteps = max(1, N // min(TFMIN[tf] for (_, tf) in case['trading']))
+    stride = {}
+    for (s, tf) in readable:
+        T = TFMIN[tf]
+        budget = 40 if T >= 720 else (160 if T >= 120 else 0)
+        stride[(s, tf)] = max(1, -(-2 * nsteps // budget)) if budget else 1
+    opp = {}
+
     def read_all(at, force_full=False):
         for (s, tf) in readable:
             T = TFMIN[tf]
+            opp[(s, tf)] = opp.get((s, tf), 0) + 1
+            if at != 'end' and opp[(s, tf)] % stride[(s, tf)] != 0 and opp[(s, tf)] > 2:
+                continue
             e = dict(k='read', s=syms.index(s) + 1, T=T, at=at, ok=True, exc='none', n=0, rows=[], n1=0, m1tail=[],
                      cur=[], curok=True, curexc='none', full=[], isfull=False, part=[])
             m1 = store.candles.get_candles(ex, s, '1m')
